@@ -108,9 +108,15 @@ def run_status_stream(ctx, n):
             base = sb.root
             for _ in range(rng.randrange(0, 2)):
                 ds.user_edit(rng, cw)
+            pre = []
             if rng.random() < 0.9:
                 sb.cli_json(['deploy', '--apply', '--yes', '--adopt'])
-            tags = perturb(rng, cw, sb)
+                # a deployed state may be the result of several deploys: configuration edits followed by further
+                # deploys leave e.g. manifests that list nothing, roots that lost their last file, emptied targets
+                for _ in range(rng.choice([0, 0, 1, 2])):
+                    pre.append('cfg+deploy:' + cw.edit_config()); cw.write()
+                    sb.cli_json(['deploy', '--apply', '--yes', '--adopt'])
+            tags = pre + perturb(rng, cw, sb)
             flt = rng.choice([None, None, 'codex'] + (['claude_code'] if cw.claude else []) + (['zed'] if cw.zed else []))
             only = rng.choice([None, None, ['extra'], ['modified', 'missing'], ['missing']])
             args = ['status'] + (['--target', flt] if flt else []) + (['--only', ','.join(only)] if only else [])
